@@ -82,7 +82,10 @@ func schemeOf(id int64) barcode.ColorScheme {
 	var fgc, bgc color.Color
 	var m color.Model
 	for {
-		switch id % 12 {
+		switch id % 13 {
+		case 12:
+			// a scheme with only the two colours set (Model left nil)
+			m, fgc, bgc = nil, color.RGBA{u8(), 20, 20, 255}, color.RGBA{230, 230, u8(), 255}
 		case 0:
 			m, fgc, bgc = color.GrayModel, color.Gray{u8()}, color.Gray{u8()}
 		case 1:
